@@ -60,6 +60,8 @@ def gen_recs(r, fmt):
                 v = r.choice(PLAIN)
                 if fmt in ("xtab", "markdown", "usv", "asv", "csvlite") and r.chance(0.2):
                     v = r.choice(["a b", "x y z"])
+                if fmt in ("pprint", "xtab", "csvlite", "dkvp", "usv", "asv") and r.chance(0.1):
+                    v = ""  # empty cells: blanks in barred pprint and markdown, "-" in plain pprint, nothing after the key in xtab
                 if fmt in ("pprint", "nidx", "xtab", "dkvp", "csvlite") and r.chance(0.12):
                     # white space other than U+0020 is data in the space-separated formats
                     v = r.choice(["a\u00a0b", "x\u3000y", "t\tt", "em\u2003sp", "\u00a0lead", "trail\u3000", "v\u000bt", "f\u000cf", "nel\u0085x", "ls\u2028x"])
@@ -68,11 +70,20 @@ def gen_recs(r, fmt):
     if fmt in ("dkvp", "nidx", "csvlite", "tsv") and r.chance(0.5):
         # pieces that end in the last byte of a multi-character IRS without being the IRS (never a separator itself)
         recs = [[(k, r.choice([v, "y", "ay", "b", "ab", "x", "a.b"]) if r.chance(0.4) else v) for k, v in rec] for rec in recs]
-    if fmt in ("csvlite", "tsv") and nf == 1:
-        recs = [[(k, v if v != "" else "nonempty") for k, v in rec] for rec in recs]
+    if fmt in ("csvlite", "tsv", "usv", "asv", "markdown", "pprint", "xtab", "dkvp"):
+        # R8: a record whose only value is empty is written as an empty line, which these formats read as a separator
+        recs = [[(k, v if v != "" or len(rec) > 1 else "nonempty") for k, v in rec] for rec in recs]
+    if fmt in ("csvlite", "json", "jsonl", "dkvp", "xtab", "pprint") and r.chance(0.2) and n > 1 and nf > 1:
+        # the same field names in another order are another schema (new header block in csvlite / pprint)
+        for i in range(1, n):
+            if r.chance(0.4):
+                rec = list(recs[i])
+                r.shuffle(rec)
+                recs[i] = rec
     if fmt in ("csvlite", "json", "jsonl", "dkvp", "xtab", "pprint") and r.chance(0.3) and n > 2:
         # heterogeneous: drop the last field from the second half (csvlite schema blocks)
         recs = recs[:n // 2] + [rec[:-1] if len(rec) > 1 else rec for rec in recs[n // 2:]]
+        recs = [[(k, v if v != "" or len(rec) > 1 else "nonempty") for k, v in rec] for rec in recs]
     return recs
 
 
@@ -164,7 +175,7 @@ def expect_values(case):
             name = k
             if fmt == "nidx" or "--implicit-csv-header" in case["ropts"] or "--implicit-tsv-header" in case["ropts"]:
                 name = str(i + 1)
-            if fmt in ("pprint", "xtab", "nidx") and v == "":
+            if fmt == "nidx" and v == "":
                 v = "-"
             row.append((name, v))
         out.append(row)
